@@ -783,6 +783,20 @@ func (e *eng) Op(f []string, line string, out *hx.Out) {
 		return v
 	}
 	switch f[0] {
+	case "backoff":
+		// backoff <min ns> <max ns> <attempt>: the retry backoff computation itself, on any bounds (the runs
+		// only reach a handful of attempts with millisecond bounds)
+		if len(f) != 4 {
+			out.P("E backoff")
+			return
+		}
+		mn, mx, n := atoi(f[1]), atoi(f[2]), atoi(f[3])
+		d := reconciler.VerifBackoffDuration(time.Duration(mn), time.Duration(mx), n)
+		bad := ""
+		if mn <= mx && (int64(d) < int64(mn) || int64(d) > int64(mx)) {
+			bad = " !BAD:C16:backoff-outside-bounds"
+		}
+		out.P("P:C16 backoff=%d%s", int64(d), bad)
 	case "cfg":
 		if e.started || (len(f) != 7 && len(f) != 8) {
 			out.P("M:%s E cfg", tags)
